@@ -125,7 +125,8 @@ PROPS = {
             "thorough": {"count": 200000000, "budget_s": 900, "workers": 16, "recheck": 200},
         },
         "describe": {
-            "rule": ("one run = one seeded plan: a handler set-up from the recipe menu (flags, scalars, optionals, vectors/sets/deques/lists, "
+            "rule": ("one run = one seeded plan: a handler set-up from the recipe menu (flags, scalars, optionals, vectors/sets/deques/lists, value "
+                     "callable with inversion and bracket handlers (control characters ! ( ) anywhere incl. at the start of a line), "
                      "map, tuple, bitset, vector<bool>, long-key prefixes, positional; separators, checks, formats, cardinalities, "
                      "constraints drawn per run), an abstract command line built from the recipe's rules and split into consecutive "
                      "parts delivered by the argument file (program-name file under $HOME/.progargs or an argument-file argument), the "
@@ -135,7 +136,7 @@ PROPS = {
                      "line or in the next source; file with or without "
                      "final newline; reads chunked to 1..16 bytes, short reads, EINTR. The subject run must equal a reference run that "
                      "gets the same words on argv with the sources switched off (both return with equal destination values, or both "
-                     "throw); override cases give a single-value argument through a source and again on argv; one run in seven hands the "
+                     "throw); override cases give a single-value argument or the tuple through a source and again on argv; one run in seven hands the "
                      "whole quoted line to evalArgumentString() instead. Non-trivial: at least "
                      "one word travelled through the file or the environment. Distinct: distinct hashes over rendered sources, both "
                      "outcomes and every simulated file-system call."),
@@ -165,7 +166,8 @@ PROPS = {
         },
         "describe": {
             "rule": ("one run = one seeded plan: handler flags (random subset of 17 HandleFlags, always with hfUsageCont), a set-up from the "
-                     "recipe menu incl. positional argument and sub-group, optional argument-file argument and explicitly named "
+                     "recipe menu incl. positional argument, sub-group, range destinations, the dynamic bitset, value callable with inversion and "
+                     "bracket handlers, optional argument-file argument and explicitly named "
                      "environment variable; program name of length 0..300 (empty, '/', only slashes, trailing slash, random bytes) or, 1 run "
                      "in 50, no program name at all (argc == 0); up "
                      "to 16 (quick) / 24 (thorough) words from three generators (random bytes 1..255, words made of - = ( ) ! only, "
@@ -207,7 +209,8 @@ PROPS = {
                      "menu (list destinations with separators drawn from , ; : . + | so that neighbouring threads differ, checks, formats, "
                      "cardinalities, argument and handler constraints, abbreviations, command-mode argument, in a minority usage output "
                      "through the Groups singleton; patterns and value lists carry a per-thread token; 1 run in 4: all threads use handler "
-                     "constraints of different kinds over the same scalars) and evaluating its own rule-obeying or mutated command line "
+                     "constraints of different kinds over the same scalars; 1 run in 5: ONE thread evaluates through the Groups front end while "
+                     "another, ordinary handler asks for its usage) and evaluating its own rule-obeying or mutated command line "
                      "1..3 times, plus a schedule (random preemption 1/p at every non-stack load/store and synchronisation call, "
                      "optionally biased to lock/unlock points, PCT, round-robin). Per process a fixed warm-up runs first; inside a run "
                      "the concurrent phase comes first, then the same jobs run alone (reference). Non-trivial: at least one preemption "
